@@ -579,7 +579,7 @@ def main():
 
     # ---- grammar-derived files: cue-setting combinations in a shuffled enumeration -----------------------
     order = list(range(N_COMBOS)); rng.shuffle(order)
-    per = -(-N_COMBOS // n_gram) if thorough else 8
+    per = -(-N_COMBOS // n_gram) if thorough else 6
     gram = []; pos = 0
     from collections import Counter as _Counter
     sib_hist = _Counter()
